@@ -91,11 +91,11 @@ def wire(world, origin):
     def imp(e):
         return '(imp %s %s)' % (e['imp'][0], e['imp'][1]) if e['imp'] else '_'
     def comp(c):
-        return '(c %s %s (kids %s) (units %s))' % (c['name'], imp(c), ' '.join(comp(k) for k in c['kids']), ' '.join(c['units']))
+        return '(c %s %s (kids %s) (units %s))' % (c['name'], imp(c), ' '.join(comp(k) for k in c['kids']), ' '.join(x for x in c['units'] if x != STD))
     fs = []
     for n, f in world.items():
         if f['kind'] == 'model':
-            fs.append('(file %s (model (units %s) (comps %s)))' % (n, ' '.join('(u %s %s (kids %s))' % (u['name'], imp(u), ' '.join(u['kids'])) for u in f['units']),
+            fs.append('(file %s (model (units %s) (comps %s)))' % (n, ' '.join('(u %s %s (kids %s))' % (u['name'], imp(u), ' '.join(x for x in u['kids'] if x != STD)) for u in f['units']),
                                                                  ' '.join(comp(c) for c in f['comps'])))
         elif f['kind'] == 'foreign':
             fs.append('(file %s (model (units) (comps)))' % n)
